@@ -117,7 +117,11 @@ def main():
     ap.add_argument("--files", default="")
     ap.add_argument("--sample", type=int, default=0)
     ap.add_argument("--seed", type=int, default=1)
+    ap.add_argument("--rerun", default="", help="results file of an earlier sweep: re-run its survivors (carried onto /repo's HEAD by line content) against the current checks")
+    ap.add_argument("--base", default="", help="with --rerun: the commit the earlier sweep's offsets refer to")
     a = ap.parse_args()
+    if a.rerun:
+        return rerun(a)
     files = a.files.split(",") if a.files else FILES
     done = set()
     if os.path.exists(a.out):
@@ -138,6 +142,59 @@ def main():
     if a.sample:
         muts = muts[:a.sample]
     print("%d mutants to run (%d already done)" % (len(muts), len(done)), flush=True)
+    rc, o = sh("go list ./... | grep -v examples | tr '\\n' ' '", "/repo", 60)
+    pkgs = o.strip()
+    q = queue.Queue()
+    for m in muts:
+        q.put(m)
+    os.makedirs(os.path.dirname(a.out), exist_ok=True)
+    out = open(a.out, "a")
+    lock = threading.Lock()
+    ts = [threading.Thread(target=worker, args=(i, q, out, lock, pkgs)) for i in range(a.workers)]
+    for t in ts:
+        t.start()
+    for t in ts:
+        t.join()
+
+
+def rerun(a):
+    """Survivors of an earlier sweep, translated from the base commit's byte offsets to HEAD: the mutated token is located
+    through its line's content (the nearest identical line) and its column."""
+    muts, lost = [], 0
+    cache = {}
+    for l in open(a.rerun):
+        r = json.loads(l)
+        if r["status"] != "survived":
+            continue
+        f = r["file"]
+        if f not in cache:
+            base = subprocess.run(["git", "-C", "/repo", "show", "%s:%s" % (a.base, f)], capture_output=True).stdout
+            cache[f] = (base, open(os.path.join("/repo", f), "rb").read())
+        base, head = cache[f]
+        ls = base.rfind(b"\n", 0, r["start"]) + 1
+        le = base.find(b"\n", r["end"])
+        if le < 0:
+            le = len(base)
+        line = base[ls:le]
+        if b"\n" in base[r["start"]:r["end"]]:
+            line = base[ls:base.find(b"\n", ls)]  # multi-line mutants: anchor on the first line, keep the length
+        lineno = base.count(b"\n", 0, ls)
+        cands = []
+        pos = 0
+        for i, hl in enumerate(head.split(b"\n")):
+            if hl == line:
+                cands.append((abs(i - lineno), pos))
+            pos += len(hl) + 1
+        span = base[r["start"]:r["end"]]
+        if not cands:
+            lost += 1
+            continue
+        off = min(cands)[1] + (r["start"] - ls)
+        if head[off:off + len(span)] != span:
+            lost += 1
+            continue
+        muts.append(dict(file=f, line=head.count(b"\n", 0, off) + 1, start=off, end=off + len(span), new=r["new"], desc=r["desc"], func=r.get("func", "")))
+    print("%d survivors carried onto HEAD, %d could not be located (their lines were changed by later commits)" % (len(muts), lost), flush=True)
     rc, o = sh("go list ./... | grep -v examples | tr '\\n' ' '", "/repo", 60)
     pkgs = o.strip()
     q = queue.Queue()
